@@ -50,6 +50,13 @@ def Dangling (l : List Byte) : Prop := [0xE2] <:+ l ∨ [0xE2, 0x80] <:+ l
 
 instance (l : List Byte) : Decidable (Dangling l) := by unfold Dangling; infer_instance
 
+/-- Boolean form of `Dangling`, by inspection of the last two bytes. -/
+def dangB (l : List Byte) : Bool :=
+  match l.reverse with
+  | 0xE2 :: _ => true
+  | 0x80 :: 0xE2 :: _ => true
+  | _ => false
+
 /-- Does `l` start with a byte that could complete a dangling marker prefix? -/
 def startsCont : List Byte → Bool
   | 0x80 :: _ => true
